@@ -252,9 +252,9 @@ def run(chk):
     r4 = chk.rule("C12.R4", "merge: get_many returns the union of the per-server answers, set_many concatenates the failures, delete_many visits each key once")
     for mname, items_mode in (("set_many", True), ("get_many", False)):
         f = prog.method(hc, mname)
-        loops = sorted([n for n in walk_no_nested(f.node) if isinstance(n, ast.For)], key=lambda n: n.lineno)
+        loops = sorted([n for n in f.node.body if isinstance(n, ast.For)], key=lambda n: n.lineno)
         if len(loops) != 2:
-            raise AnalysisError("C12.R3: HashClient.%s has %d loops (builder + dispatch expected)" % (mname, len(loops)))
+            raise AnalysisError("C12.R3: HashClient.%s has %d top-level loops (builder + dispatch expected)" % (mname, len(loops)))
         build, disp = loops
         bvars = [n.targets[0].id for n in walk_no_nested(f.node) if isinstance(n, ast.Assign) and isinstance(n.targets[0], ast.Name) and isinstance(n.value, ast.Call) and call_name(n.value).endswith("defaultdict")]
         if len(bvars) != 1:
@@ -319,7 +319,7 @@ def run(chk):
                 if items_mode:
                     batch_passed = len(runs[0].args) > 1 and isinstance(runs[0].args[1], ast.Name) and runs[0].args[1].id == batchvar
                 else:
-                    ins = [c for c in ast.walk(disp) if isinstance(c, ast.Call) and isinstance(c.func, ast.Attribute) and c.func.attr == "insert" and len(c.args) == 2 and isinstance(c.args[1], ast.Name) and c.args[1].id == batchvar and isinstance(c.args[0], ast.Constant) and c.args[0].value == 0]
+                    ins = [c for c in ast.walk(disp) if isinstance(c, ast.Call) and isinstance(c.func, ast.Attribute) and c.func.attr == "insert" and len(c.args) == 2 and ((isinstance(c.args[1], ast.Name) and c.args[1].id == batchvar) or (isinstance(c.args[1], ast.Subscript) and isinstance(c.args[1].value, ast.Name) and c.args[1].value.id == batchvar and isinstance(c.args[1].slice, ast.Slice))) and isinstance(c.args[0], ast.Constant) and c.args[0].value == 0]
                     star = [a for a in runs[0].args if isinstance(a, ast.Starred)]
                     batch_passed = len(ins) == 1 and len(star) == 1 and isinstance(ins[0].func.value, ast.Name) and isinstance(star[0].value, ast.Name) and star[0].value.id == ins[0].func.value.id
                     gf = [n for n in ast.walk(disp) if isinstance(n, ast.Assign) and isinstance(n.value, ast.Attribute) and isinstance(n.value.value, ast.Name) and n.value.value.id == cvar]
@@ -327,7 +327,17 @@ def run(chk):
                     r3.expect(names == ["get_many", "gets_many"], "get_many dispatches client.get_many / client.gets_many", "HashClient.get_many:dispatch-method", "the dispatch of get_many uses %s on the client" % names, fn=f, node=disp)
             r3.expect(okr and batch_passed, "%s: the batch is passed unmodified to the safe runner with that client" % mname, "HashClient.%s:dispatch-batch" % mname, "the dispatch loop of %s does not pass the server's own batch, unmodified, to the runner together with that server's client" % mname, fn=f, node=disp)
             nested = [n for n in ast.walk(disp) if isinstance(n, (ast.For, ast.While)) and n is not disp]
-            r3.expect(not nested, "%s: one dispatch per batch" % mname, "HashClient.%s:dispatch-nested-loop" % mname, "the dispatch loop contains another loop", fn=f, node=disp)
+            sliced = None
+            if nested:
+                # accepted idiom: the batch is sent in consecutive slices  for i in range(0, len(B), N): ... B[i : i + N]
+                nl = nested[0]
+                okn = len(nested) == 1 and isinstance(nl, ast.For) and isinstance(nl.target, ast.Name) and isinstance(nl.iter, ast.Call) and call_name(nl.iter) == "range" and len(nl.iter.args) == 3 and isinstance(nl.iter.args[0], ast.Constant) and nl.iter.args[0].value == 0 and isinstance(nl.iter.args[1], ast.Call) and call_name(nl.iter.args[1]) == "len" and isinstance(nl.iter.args[1].args[0], ast.Name) and nl.iter.args[1].args[0].id == batchvar
+                step = node_src(nl.iter.args[2]) if okn else None
+                sl = [x for x in ast.walk(nl) if isinstance(x, ast.Subscript) and isinstance(x.value, ast.Name) and x.value.id == batchvar and isinstance(x.slice, ast.Slice)] if okn else []
+                oks = okn and len(sl) == 1 and isinstance(sl[0].slice.lower, ast.Name) and sl[0].slice.lower.id == nl.target.id and isinstance(sl[0].slice.upper, ast.BinOp) and isinstance(sl[0].slice.upper.op, ast.Add) and node_src(sl[0].slice.upper.left) == nl.target.id and node_src(sl[0].slice.upper.right) == step
+                r3.expect(bool(oks), "%s: the batch is sent in consecutive slices that partition it" % mname, "HashClient.%s:dispatch-nested-loop" % mname, "the dispatch loop of %s contains another loop that is not the slicing idiom `for i in range(0, len(batch), N): batch[i:i+N]`: keys of a batch may be sent twice or not at all" % mname, fn=f, node=nl)
+                if oks:
+                    sliced = (nl, sl[0])
             # merge
             if items_mode:
                 acc = [n for n in ast.walk(disp) if isinstance(n, ast.AugAssign) and isinstance(n.op, ast.Add) and n.value is runs[0]] if okr else []
@@ -342,7 +352,11 @@ def run(chk):
                     a = upd[0].args[0]
                     res_var = getattr(runs[0], "_parent", None)
                     okm = isinstance(a, ast.Name) and isinstance(res_var, ast.Assign) and isinstance(res_var.targets[0], ast.Name) and res_var.targets[0].id == a.id
-                    # not under a condition
+                    # not under a condition, and in the same (innermost) loop as the call whose answer it merges
+                    inner_of_run = next((a_ for a_ in _ancestors(runs[0]) if isinstance(a_, (ast.For, ast.While))), None)
+                    inner_of_upd = next((a_ for a_ in _ancestors(upd[0]) if isinstance(a_, (ast.For, ast.While))), None)
+                    if inner_of_run is not inner_of_upd:
+                        okm = False
                     for anc in _ancestors(upd[0]):
                         if anc is disp:
                             break
